@@ -163,9 +163,12 @@ func (b *base) Init() error {
 	// a service-locator call from inside the initialisation callback: the target may be lazy and may depend back on this
 	// component, which closes a cycle during initialisation rather than population
 	if il := b.e.sc.ILook; len(il) >= b.id && il[b.id-1] != 0 && b.e.ap != nil {
-		if _, err := b.e.ap.GetComponentByName(nodeName(il[b.id-1])); err != nil {
+		c, err := b.e.ap.GetComponentByName(nodeName(il[b.id-1]))
+		if err != nil {
 			return err
 		}
+		// what the lookup handed out DURING the start (possibly the early reference of a component still in creation)
+		b.e.emit("ilooked", b.id, map[string]any{"t": il[b.id-1], "res": b.e.objVer(c)})
 	}
 	return b.e.cb("init", b.id)
 }
